@@ -709,7 +709,7 @@ class QueryBuilder(Selectable, Term):  # type:ignore[misc]
         self._for_update = False
         self._for_update_nowait = False
         self._for_update_skip_locked = False
-        self._for_update_of: set[str] = set()
+        self._for_update_of: list[str] = []
 
         self._wheres: QueryBuilder | Term | None = None
         self._prewheres: Criterion | None = None
@@ -1060,7 +1060,8 @@ class QueryBuilder(Selectable, Term):  # type:ignore[misc]
         self._for_update = True
         self._for_update_skip_locked = skip_locked
         self._for_update_nowait = nowait
-        self._for_update_of = set(of)
+        # keep call order (without duplicates): a set would render in hash order, which differs between processes
+        self._for_update_of = list(dict.fromkeys(of))
 
     @builder
     def do_nothing(self) -> "Self":  # type:ignore[return]
